@@ -6,7 +6,7 @@ from concurrent.futures import ThreadPoolExecutor
 import common
 
 CORPUS_SEED = 1
-CORPUS_N = 110
+CORPUS_N = 114
 
 HEX_OK = "4f6b28"      # Ok(
 HEX_ERR = "45727228"   # Err(
@@ -152,6 +152,10 @@ class EpisodeMonitor:
         p = op.split(" ")
         o = parse_out(out)
         prev = self.prev
+        if "PANIC" in out:
+            # C16: no operation on a generated function (call, invalidation, statistics) may panic
+            self.fail("C16", f"{op}: the operation panicked: {out[:200]}")
+            return
         if p[0] == "call":
             fi, th = int(p[1]), int(p[2])
             s = self.spec[fi]
@@ -231,10 +235,15 @@ class EpisodeMonitor:
                 if (not s["is_async"]) and o["check"] and stored and not s["use_mem"] and \
                         (d is None or key not in d[0] or d[0][key][0] != o["would"]):
                     self.fail("C11", f"call {op}: the entry was judged stale and recomputed, but the fresh value is not in the cache afterwards")
+                # whatever the flavour and store path (plain or memory-aware): once the fresh result of a stale entry has been
+                # accepted for caching, the OLD value is gone - the key holds the fresh value or (evicted / oversize) nothing
+                if o["check"] and stored and d is not None and key in d[0] and d[0][key][0] != o["would"]:
+                    self.fail("C11", f"call {op}: the entry was judged stale and recomputed, but the cache still holds the old value afterwards (it will be judged stale and recomputed on every call)")
                 # a refreshed entry is a NEW entry: its lifetime starts at the refresh
                 if o["check"] and stored and d is not None and key in d[0] and d[0][key][0] == o["would"] and d[0][key][2] >= 1000:
                     self.fail("C11", f"call {op}: the entry was judged stale and replaced, but the fresh entry's age is {d[0][key][2]} ms (it inherited the birth time of the entry it replaced and will expire early)")
-                if (not stored) and d is not None and key in d[0] and d[0][key][0] == o["would"] and not o["check"]:
+                if (not stored) and d is not None and key in d[0] and d[0][key][0] == o["would"] and \
+                        (not o["check"] or o["check"][0][2] != o["would"]):
                     pid = "C10" if s["cache_if"] else "C09"
                     self.fail(pid, f"call {op}: a result that must not be cached (rejected / Err) is in the cache afterwards")
             self.attrs_effect(op, s, inst, key, o, prev, dumps)
